@@ -54,6 +54,10 @@ def random_programs(rng, kinds, n, nops, maxcalls=4):
         p = schema.random_program(rng, kind, k, maxcalls)
         if i % 5 == 4 and kind not in ("FADT", "TCPA_SERVER"):
             p["shadow"] = True          # a second builder of the same type is alive and growing in lock-step
+        if i % 7 == 3:
+            p = schema.saturate(p, False)   # every scalar argument zero ("value == 0" must not read as "not supplied")
+        elif i % 11 == 5:
+            p = schema.saturate(p, True)    # every scalar argument all-ones
         progs.append(p)
     return progs
 
